@@ -127,9 +127,10 @@ PROPS = {
         "oracle_props": ["C07"],
         "property_files": ["C07.v"],
         "expected_theorems": ["C07_sweep_structural_legality", "C07_inserted_ops_are_legal_terms", "C07_zero_weight_never_inserted_metropolis",
-                              "C07_zero_weight_never_inserted_heatbath", "C07_spin_flips_keep_bond_positions"],
+                              "C07_zero_weight_never_inserted_heatbath", "C07_spin_flips_keep_bond_positions",
+                              "C07_loop_never_stores_nonpositive", "C07_generic_weights_nonneg", "C07_cluster_flip_keeps_legality"],
         "assumptions": [
-            "positivity is proved as 'zero-weight operators are inserted with probability 0'; that cluster / loop / RVB updates keep weights positive is decided by the legality oracle after every call plus the model correspondence",
+            "positivity is proved as 'zero-weight operators are inserted / produced with probability 0' for the diagonal updates and the directed loop, and as preservation of legality for cluster flips with validated labellings; for the RVB update it is decided by the legality oracle after every call only",
         ],
         "trusted_base": ["Model/Steps.v transcription validated by whole-call tape replay"],
     },
@@ -232,7 +233,7 @@ PROPS = {
         "property_files": ["C04.v"],
         "expected_theorems": ["C04_vertex_balance", "C04_exit_weight_is_new_weight", "C04_reverse_total", "C04_bounce_unchanged",
                               "C04_metropolis_slot_reversible", "C04_cluster_gate", "C04_symmetry_meaning", "C04_weights_nonneg",
-                              "C04_loop_keeps_leg_parity", "C04_diagonal_ops_even"],
+                              "C04_loop_keeps_leg_parity", "C04_diagonal_ops_even", "C04_loop_never_stores_nonpositive"],
         "assumptions": [
             "PARTIAL: vertex-level detailed balance of the directed loop (for every Hamiltonian, arity and leg pair), slot-level reversibility of the diagonal update and the cluster gate are proved; closure of a loop into a consistent configuration is decided by the world-line checker plus the bit-exact loop correspondence (C06); convergence by exact diagonalisation",
             "KNOWN FINDING odd-parity: interaction sets whose only spin-flip elements have odd leg parity (single-site matrices that are not constant, e.g. [2,1,1,0.5]) are accepted but not sampled ergodically (C04_loop_keeps_leg_parity explains why)",
